@@ -134,7 +134,7 @@ impl<'i> Parser<'i> {
         &&& self.tokens@.len() + 8 <= usize::MAX   // look-ahead index arithmetic; a Vec of 40-byte tokens cannot be this long
         &&& forall|i: int| 0 <= i < self.tokens@.len() ==> is_tok(#[trigger] self.tokens@[i].kind)
         &&& self.depth <= MAX_DEPTH
-        &&& self.fuel <= FUEL
+        &&& self.fuel <= VFUEL
     }
     // wf_ev0: the event discipline proper; wf_ev additionally says "inside the root node", which holds everywhere
     // except at the entry and exit of `module`
@@ -223,7 +223,7 @@ spec fn same_but_fuel(o: Parser, n: Parser) -> bool {
 // otherwise the fuel was reset by the last bump and at most a + FUEL_U * (levels of nesting left) were spent since
 // (9 == FUEL_U, written as a literal to keep the arithmetic linear)
 spec fn fuel_ok(o: Parser, n: Parser, pre: int, a: int) -> bool {
-    if n.pos == o.pos { n.fuel >= o.fuel - pre } else { n.fuel >= FUEL - (a + 9 * (MAX_DEPTH + 1 - o.depth)) }
+    if n.pos == o.pos { n.fuel >= o.fuel - pre } else { n.fuel >= VFUEL - (a + 9 * (MAX_DEPTH + 1 - o.depth)) }
 }
 
 // ---------- abbreviations used by contracts/parser.spec ----------
